@@ -278,7 +278,7 @@ class Impl:
     def _prune(self):
         d = os.path.join(CACHE, 'ext')
         ents = sorted((os.path.getmtime(os.path.join(d, e)), e) for e in os.listdir(d) if not e.endswith('.tmp'))
-        for _, e in ents[:-3]:
+        for _, e in ents[:-10]:
             shutil.rmtree(os.path.join(d, e), ignore_errors=True)
             shutil.rmtree(os.path.join(CACHE, 'xdg', e), ignore_errors=True)
 
